@@ -171,6 +171,8 @@ PROPS = {
             plain("c01", "TestReplayDepth"),
             rapid("c01", "TestPropRoundTrip", quick=(15000, 6), thorough=(150000, 12)),
             rapid("c01", "TestPropRefusal", quick=(3000, 1), thorough=(30000, 2)),
+            rapid("c01", "TestPropRefusalTail", quick=(3000, 1), thorough=(30000, 2)),
+            rapid("c01", "TestPropAnyFlag", quick=(20000, 2), thorough=(200000, 6)),
             rapid("c01", "TestPropForeignForms", quick=(15000, 3), thorough=(150000, 4)),
             rapid("c01", "TestPropLongStream", quick=(150, 2), thorough=(3000, 8)),
             fuzz("c01", "FuzzRoundTrip", secs=150),
@@ -522,6 +524,12 @@ PROPS = {
 
 # ---- additions of the second session (strengthened after seeded changes were missed; see DESIGN.md 8.4)
 _MORE = {
+    "C01": " Flags and mailbox attributes are also drawn from ARBITRARY strings (TestPropAnyFlag: every byte value between letters, UTF-8 words, well-known "
+           "names with a letter replaced by a non-ASCII character that Unicode folding maps onto it, bare and in lists): 7-bit valid ones must be accepted, "
+           "malformed ones refused, 8-bit ones either - and whatever is accepted must decode to the same value up to ASCII case of the well-known names. "
+           "Refusals are repeated with further values behind the refused one, including synchronising literals driven by the caller (TestPropRefusalTail).",
+    "C05": " Session.Poll counts as a session operation: it must not be reached on behalf of a command that leaves the connection not authenticated or in logout.",
+    "C03": " Hierarchy delimiters in LIST and NAMESPACE data include non-ASCII runes.",
     "C04": " Also literals (sync/non-sync, often of size 0) in positions where the grammar has no string (SEARCH dates and numbers, FETCH sets, STORE flags, "
            "STATUS items), with command-like text as data and as the rest of the line: the command must fail, its data and line tail are never executed.",
     "C06": " Oversize refusals (TestPropOversize): APPEND above the append limit in every connection state (not authenticated, authenticated, selected, after "
